@@ -252,6 +252,9 @@ def _revert_variable(var_type, value):
         return value
     elif var_type in datatypes.FLOAT_TYPES:
         return value
+    elif value < 0:
+        # Negative numbers cannot be written with the 0x prefix
+        return str(value)
     else:
         return f"0x{value:02X}"
 
